@@ -99,11 +99,11 @@ def c30(pid, tier):
                     # a gadget violation reproduces when the real verifier accepts a proof whose public
                     # output / input contradicts the integer comparison
                     ok = False
-                    if cex.get("completeness"):
+                    if cex.get("completeness") or "has a witness" in name:
                         # completeness violation reproduces when the real prover cannot prove the in-range input
                         ok = not any(o.get("accepted") for o in rp)
                     for o in rp:
-                        if o.get("accepted") and not cex.get("completeness"):
+                        if o.get("accepted") and not (cex.get("completeness") or "has a witness" in name):
                             x = cex["named"]["x"][0]
                             pis = o.get("public_inputs", [])
                             if k == "lt":
@@ -176,8 +176,11 @@ def c31(pid, tier):
                     json.dump({"query": name, "spec": spec, "assignments": assigns, "replay": rp}, open(path, "w"))
                     ins = [cex["named"][f"in_{i}"] for i in range(n)]
                     ok = False
+                    if "has a witness" in name:
+                        # completeness counterexample: reproduced when the real prover cannot prove these inputs
+                        ok = not rp[0].get("accepted")
                     for o in rp:
-                        if o.get("accepted"):
+                        if o.get("accepted") and "has a witness" not in name:
                             pis = o["public_inputs"]
                             outs = [pis[4 * i:4 * i + 4] for i in range(n)]
                             ok = ok or sort_violates(ins, outs)
